@@ -299,6 +299,25 @@ class CallMixin:
         else:
             raise EngineError(f"abs of {a.t}")
 
+    def bi_round(self, st, args, kw, node):
+        """round(x) with one argument: nearest integer, ties to even (CPython)."""
+        if len(args) != 1 or kw:
+            raise EngineError("round with ndigits")
+        a = self.as_value(args[0])
+        if isinstance(a.t, (TInt, TBool)):
+            yield st, coerce(a, INT)
+            return
+        if not isinstance(a.t, TFloat):
+            raise EngineError(f"round of {a.t}")
+        self.raise_(st, "ValueError", vals.f_isnan(a))
+        self.raise_(st, "OverflowError", vals.f_isinf(a))
+        st = st.assume(vals.f_isfin(a))
+        r = vals.f_r(a)
+        fl = z3.ToInt(r)
+        frac = r - z3.ToReal(fl)
+        res = z3.If(frac < 0.5, fl, z3.If(frac > 0.5, fl + 1, z3.If(fl % 2 == 0, fl, fl + 1)))
+        yield st, mk_int(res)
+
     def bi_int(self, st, args, kw, node):
         if not args:
             yield st, mk_int(0)
@@ -678,12 +697,22 @@ class CallMixin:
     def bi_time_time(self, st, args, kw, node):
         """time.time()/monotonic()/perf_counter(): a finite value not smaller than the previous reading."""
         t = z3.Real(fresh_name("clock"))
-        prev = st.ghost.get("$clock")
+        prev = st.ghost.get("$clock", z3.Real("clock0"))
         s2 = st.fork()
-        if prev is not None:
-            s2.pc.append(t >= prev)
+        s2.pc.append(t > prev)       # clock progress: each reading is strictly later than the previous one
         s2.ghost["$clock"] = t
         yield s2, mk_float(t)
+
+    def bi_now(self, st, args, kw, node):
+        """spec: the latest clock reading on this path (every later time.time() is strictly larger)."""
+        yield st, mk_float(st.ghost.get("$clock", z3.Real("clock0")))
+
+    def bi_multiprocess_Pipe(self, st, args, kw, node):
+        if "Connection" not in self.ct.classes:
+            raise EngineError("mp.Pipe needs klass('multiprocess.connection:Connection')")
+        st, a = self.allocate(st, "Connection")
+        st, b = self.allocate(st, "Connection")
+        yield st, mk_tuple([a, b])
 
     def bi_time_time_ns(self, st, args, kw, node):
         t = z3.Int(fresh_name("clock_ns"))
